@@ -58,34 +58,55 @@ Theorem C15_guarded_writes_preserve : forall ops d r,
 Proof. exact guarded_preserves_foreign. Qed.
 Print Assumptions C15_guarded_writes_preserve.
 
+(* the guards the design names (db api update/delete_workflow_definition, update_workflow_execution,
+   delete_cron_trigger, and the create_or_update wrappers of the first two) are present in the current source *)
+Definition anchored_guarded : list string :=
+  ["update_workflow_definition"; "delete_workflow_definition"; "create_or_update_workflow_definition";
+   "update_workflow_execution"; "create_or_update_workflow_execution"; "delete_cron_trigger"]%string.
+
+Theorem C15_anchored_guards : forall n, In n anchored_guarded ->
+  exists m s, In (n, m, s) db_shapes /\ is_write s = true /\ shape_guarded s = true.
+Proof.
+  assert (H : forallb (fun n => existsb (fun e => String.eqb (fst (fst e)) n && is_write (snd e) && shape_guarded (snd e))
+                                        db_shapes) anchored_guarded = true) by (vm_compute; reflexivity).
+  intros n Hn. rewrite forallb_forall in H. specialize (H n Hn). apply existsb_exists in H.
+  destruct H as [[[n' m] s] [Hin Hp]]. cbn [fst snd] in Hp. apply andb_true_iff in Hp. destruct Hp as [Hp Hg].
+  apply andb_true_iff in Hp. destruct Hp as [Hn' Hw]. apply String.eqb_eq in Hn'. subst n'.
+  exists m, s. repeat split; assumption.
+Qed.
+Print Assumptions C15_anchored_guards.
+
 Definition public_overwritten (s : shape) : Prop :=
   exists d c a r, wf_db d /\ In r (rows d) /\ r_scope r = Public /\ c_admin c = false /\
                   c_project c <> r_owner r /\ find_row (r_id r) (snd (exec_op s d c a)) <> Some r.
 
-(* ... and it is exactly the guard that matters: EVERY writing function of the table that lacks it lets a
-   foreign non-admin project change or delete another project's public row. *)
+(* ... and it is exactly the guard that matters: EVERY writing function of the table that has neither
+   check_db_obj_access nor an own-rows-only query lets a foreign non-admin project change or delete another
+   project's public row. *)
 Theorem C15_unguarded_write_violates : forall s,
-  in_table s -> is_write s = true -> shape_guarded s = false -> public_overwritten s.
+  in_table s -> shape_exposed s = true -> public_overwritten s.
 Proof.
-  intros s [n [m _]] Hw Hg. destruct (wit_facts m) as [H1 [H2 [H3 [H4 [H5 H6]]]]].
+  intros s [n [m _]] Hg. destruct (wit_facts m) as [H1 [H2 [H3 [H4 [H5 H6]]]]].
   exists (wit_d m), wit_c, (wit_a m), (wit_r m). repeat split; try assumption.
   rewrite H6. apply unguarded_violates; assumption.
 Qed.
 Print Assumptions C15_unguarded_write_violates.
 
-(* DEFECT F2 (the faithful model refutes "changed or deleted only by their owner or an admin"):
-   the current table does contain such functions. *)
-Theorem C15_public_readonly_refuted :
-  exists n m s, In (n, m, s) db_shapes /\ is_write s = true /\ shape_guarded s = false /\ public_overwritten s.
+(* whatever the table is: either some function is exposed and the property is violated through it, or no
+   function is exposed (harness prints which case the current source is in: coverage.table.unguarded_writes) *)
+Theorem C15_public_readonly_decided :
+  (exists n m s, In (n, m, s) db_shapes /\ shape_exposed s = true /\ public_overwritten s) \/
+  (forall s, in_table s -> shape_exposed s = false).
 Proof.
-  destruct (find (fun e => is_write (snd e) && negb (shape_guarded (snd e))) db_shapes) as [[[n m] s]|] eqn:E;
-    [|vm_compute in E; discriminate].
-  apply find_some in E. destruct E as [Hin Hp]. cbn [snd] in Hp. apply andb_true_iff in Hp.
-  destruct Hp as [Hw Hg]. apply negb_true_iff in Hg.
-  exists n, m, s. repeat split; try assumption.
-  apply C15_unguarded_write_violates; try assumption. exists n, m. exact Hin.
+  destruct (existsb (fun e => shape_exposed (snd e)) db_shapes) eqn:E.
+  - left. apply existsb_exists in E. destruct E as [[[n m] s] [Hin Hp]]. cbn [snd] in Hp.
+    exists n, m, s. repeat split; try assumption. apply C15_unguarded_write_violates; [exists n, m; exact Hin|exact Hp].
+  - right. intros s [n [m Hin]]. destruct (shape_exposed s) eqn:F; [|reflexivity].
+    assert (existsb (fun e => shape_exposed (snd e)) db_shapes = true) as X
+      by (apply existsb_exists; exists (n, m, s); split; [exact Hin|exact F]).
+    rewrite X in E. discriminate.
 Qed.
-Print Assumptions C15_public_readonly_refuted.
+Print Assumptions C15_public_readonly_decided.
 
 (* NEW RESOURCES BELONG TO THE CALLER - conditional part: through shapes of hooked model classes, over any
    call sequence, a row of the final table either kept the owner it had at the start or belongs to the
@@ -97,18 +118,6 @@ Theorem C15_owner_forced : forall ops d x,
   (exists k, In k ops /\ r_owner x = c_project (snd (fst k))).
 Proof. exact owner_forced_history. Qed.
 Print Assumptions C15_owner_forced.
-
-(* DEFECT F9: a secure model class defined after mb.register_secure_model_hooks() has no hook; its create /
-   update functions store a caller-supplied project_id as given. *)
-Theorem C15_owner_forced_refuted :
-  exists n m s, In (n, m, s) db_shapes /\ shape_forced s = false /\ stolen s m.
-Proof.
-  destruct (find (fun e => negb (shape_forced (snd e))) db_shapes) as [[[n m] s]|] eqn:E;
-    [|vm_compute in E; discriminate].
-  apply find_some in E. destruct E as [Hin Hp]. cbn [snd] in Hp. apply negb_true_iff in Hp.
-  exists n, m, s. repeat split; try assumption. apply unforced_violates. exact Hp.
-Qed.
-Print Assumptions C15_owner_forced_refuted.
 
 (* MEMBERSHIP: pending and rejected offers grant nothing *)
 Theorem C15_only_accepted_shares_count : forall d c r, visible (accepted_only d) c r = visible d c r.
@@ -131,6 +140,50 @@ Theorem C15_member_reads_own : forall o d c g m,
 Proof. exact mem_reads_own. Qed.
 Print Assumptions C15_member_reads_own.
 
+(* non-vacuity: the hypotheses of the positive theorems are met by concrete table entries and states *)
+Example C15_nonvacuous :
+  in_table (SUpdate (mkFetch QAdmin SelNameNsOrId) true true) /\
+  shape_guarded (SUpdate (mkFetch QAdmin SelNameNsOrId) true true) = true /\
+  (let d := mkDb [mkRes 1 Environment 1 Private 5 0 0 false; mkRes 2 Environment 2 Private 5 0 0 false] [] in
+   wf_db d /\ visible d (mkCtx 2 false) (mkRes 1 Environment 1 Private 5 0 0 false) = false /\
+   fst (exec_op (SGet (mkFetch QSecure SelName)) d (mkCtx 2 false)
+          (mkArgs Environment 5 None false 0 None None 0 0 0 Private 0 None None None))
+     = RRow (mkRes 2 Environment 2 Private 5 0 0 false)) /\
+  List.length db_shapes > 80.
+Proof.
+  split; [exists "update_workflow_definition"%string, WorkflowDefinition; vm_compute; tauto|].
+  split; [reflexivity|]. split; [|vm_compute; lia].
+  split; [unfold wf_db; cbn; repeat constructor; cbn; intuition discriminate|]. split; reflexivity.
+Qed.
+
+(* ==== DEFECTS OF THE CURRENT TREE (each theorem below states that the faithful model violates the property
+   text; when the defect is repaired in the source the theorem stops being provable and must be removed) ==== *)
+
+(* DEFECT F2: "changed or deleted only by their owner or an admin" is refuted: the table contains exposed writers. *)
+Theorem C15_public_readonly_refuted :
+  exists n m s, In (n, m, s) db_shapes /\ is_write s = true /\ shape_guarded s = false /\ public_overwritten s.
+Proof.
+  destruct (find (fun e => shape_exposed (snd e)) db_shapes) as [[[n m] s]|] eqn:E;
+    [|vm_compute in E; discriminate].
+  apply find_some in E. destruct E as [Hin Hp]. cbn [snd] in Hp.
+  destruct (exposed_not_guarded s Hp) as [Hw Hg].
+  exists n, m, s. repeat split; try assumption.
+  apply C15_unguarded_write_violates; try assumption. exists n, m. exact Hin.
+Qed.
+Print Assumptions C15_public_readonly_refuted.
+
+(* DEFECT F9: a secure model class defined after mb.register_secure_model_hooks() has no hook; its create /
+   update functions store a caller-supplied project_id as given. *)
+Theorem C15_owner_forced_refuted :
+  exists n m s, In (n, m, s) db_shapes /\ shape_forced s = false /\ stolen s m.
+Proof.
+  destruct (find (fun e => negb (shape_forced (snd e))) db_shapes) as [[[n m] s]|] eqn:E;
+    [|vm_compute in E; discriminate].
+  apply find_some in E. destruct E as [Hin Hp]. cbn [snd] in Hp. apply negb_true_iff in Hp.
+  exists n, m, s. repeat split; try assumption. apply unforced_violates. exact Hp.
+Qed.
+Print Assumptions C15_owner_forced_refuted.
+
 (* DEFECT F7: create_resource_member does not require the caller to own the resource and
    _get_accepted_resources does not require the offer to come from the owner: an accepted member re-shares. *)
 Theorem C15_reshare_refuted :
@@ -147,19 +200,3 @@ Proof.
   repeat split; try (cbn; discriminate); try assumption. left. reflexivity.
 Qed.
 Print Assumptions C15_reshare_refuted.
-
-(* non-vacuity: the hypotheses of the positive theorems are met by concrete table entries and states *)
-Example C15_nonvacuous :
-  in_table (SUpdate (mkFetch QAdmin SelNameNsOrId) true true) /\
-  shape_guarded (SUpdate (mkFetch QAdmin SelNameNsOrId) true true) = true /\
-  (let d := mkDb [mkRes 1 Environment 1 Private 5 0 0 false; mkRes 2 Environment 2 Private 5 0 0 false] [] in
-   wf_db d /\ visible d (mkCtx 2 false) (mkRes 1 Environment 1 Private 5 0 0 false) = false /\
-   fst (exec_op (SGet (mkFetch QSecure SelName)) d (mkCtx 2 false)
-          (mkArgs Environment 5 None false 0 None None 0 0 0 Private 0 None None None))
-     = RRow (mkRes 2 Environment 2 Private 5 0 0 false)) /\
-  List.length db_shapes > 80.
-Proof.
-  split; [exists "update_workflow_definition"%string, WorkflowDefinition; vm_compute; tauto|].
-  split; [reflexivity|]. split; [|vm_compute; lia].
-  split; [unfold wf_db; cbn; repeat constructor; cbn; intuition discriminate|]. split; reflexivity.
-Qed.
